@@ -95,7 +95,11 @@ async fn startup_udp<const N: usize>(config: &ServerConfig<SslConfig>, user_mana
         let inbound = UdpSocket::bind(format!("{}:{}", config.host, config.port)).await?;
         let (tx, mut rx) = mpsc::channel::<(BytesMut, Address, SocketAddr, Session<N>)>(1024);
         let ttl = Duration::from_secs(300);
-        let mut net_map: LruCache<u64, UdpAssociate<N>> = LruCache::with_expiry_duration_and_capacity(ttl, 10240);
+        // a 2022 session is named by its client session id; the legacy datagram format has no sessions, so there an
+        // association belongs to the client address it talks to
+        let check_packet_id = config.cipher.is_aead_2022();
+        let assoc_key = |session: &Session<N>, client_addr: SocketAddr| if check_packet_id { (session.client_session_id, None) } else { (0, Some(client_addr)) };
+        let mut net_map: LruCache<(u64, Option<SocketAddr>), UdpAssociate<N>> = LruCache::with_expiry_duration_and_capacity(ttl, 10240);
         let mut cleanup_timer = time::interval(ttl);
         info!("Udp server running => {}|{}|{}:{}", config.protocol, config.cipher, config.host, config.port);
         let mut buf = [0; 0x10000];
@@ -107,7 +111,7 @@ async fn startup_udp<const N: usize>(config: &ServerConfig<SslConfig>, user_mana
                 // p_s_c
                 peer_msg = rx.recv() => {
                     if let Some((content, peer_addr, client_addr, session)) = peer_msg {
-                        net_map.get(&session.client_session_id); // keep alive
+                        net_map.get(&assoc_key(&session, client_addr)); // keep alive
                         let mut dst = BytesMut::new();
                         if let Err(e) = SessionCodec::encode(&codec, (content, peer_addr, session), &mut dst) {
                             error!("[udp] encode failed; error={e}")
@@ -126,7 +130,7 @@ async fn startup_udp<const N: usize>(config: &ServerConfig<SslConfig>, user_mana
                             let mut src = BytesMut::from(&buf[..len]);
                             match SessionCodec::<N>::decode(&codec, &mut src) {
                                 Ok(Some((content, peer_addr, session))) => {
-                                    let key = session.client_session_id;
+                                    let key = assoc_key(&session, client_addr);
                                     if net_map.get(&key).is_some_and(UdpAssociate::is_closed) {
                                         net_map.remove(&key); // its task has ended; start over
                                     }
@@ -135,7 +139,7 @@ async fn startup_udp<const N: usize>(config: &ServerConfig<SslConfig>, user_mana
                                             error!("[udp] association is gone; client={client_addr}, error={e}");
                                         }
                                     } else {
-                                        match UdpAssociateContext::create(&session, client_addr, tx.clone()).await {
+                                        match UdpAssociateContext::create(&session, client_addr, tx.clone(), check_packet_id).await {
                                             Ok(assoc) => {
                                                 if let Err(e) = assoc.try_send((content, peer_addr, session)).await {
                                                     error!("[udp] association is gone; client={client_addr}, error={e}");
@@ -223,6 +227,7 @@ struct UdpAssociateContext<const N: usize> {
     server_session_id: u64,
     server_packet_id: u64,
     user: Option<Arc<ServerUser<N>>>,
+    check_packet_id: bool,
 }
 
 impl<const N: usize> UdpAssociateContext<N> {
@@ -230,6 +235,7 @@ impl<const N: usize> UdpAssociateContext<N> {
         client_session: &Session<N>,
         client_addr: SocketAddr,
         inbound: Sender<(BytesMut, Address, SocketAddr, Session<N>)>,
+        check_packet_id: bool,
     ) -> anyhow::Result<UdpAssociate<N>> {
         let (sender, receiver) = mpsc::channel(1024);
 
@@ -243,6 +249,7 @@ impl<const N: usize> UdpAssociateContext<N> {
             server_session_id: random(),
             server_packet_id: 0,
             user: None,
+            check_packet_id,
         };
         let task = tokio::spawn(async move { assoc.relay(receiver).await });
         Ok(UdpAssociate { task, sender })
@@ -292,7 +299,7 @@ impl<const N: usize> UdpAssociateContext<N> {
                                 },
                             };
                             // a refused datagram is dropped and nothing else changes
-                            if !self.validate_packet_id(session.packet_id) {
+                            if self.check_packet_id && !self.validate_packet_id(session.packet_id) {
                                 error!("[udp] packet_id {} out of window; client={}, peer={}", session.packet_id, self.client_addr, peer_addr);
                                 continue;
                             }
